@@ -49,6 +49,9 @@ func runC18(ctx *Ctx) {
 	}
 	ruleCanonicalElemSize(ctx, "C18-R2e")
 	ruleNoSliceAcrossAlloc(ctx, "C18-R5s")
+	// the truncation scan addresses words of the struct it measures: unchecked
+	// address arithmetic only at the listed justified sites (shared with C01-R2)
+	ruleUncheckedSites(ctx, "C18-R5u")
 	r := ctx.Rep
 	r.Floor("C18-R1", 15)
 	r.Floor("C18-R3", 1)
